@@ -477,4 +477,97 @@ example : entryAliases exAliased exA.2 = [("p", "q")] ∧
       | some (h1, c) => decide (entryAliases h1 c = [])
       | none => false) = true := by decide
 
+/-! ## Non-vacuity (review): every hypothesis of the theorems above, instantiated at the example world
+
+`exH` = two sibling instances `a` (location 22) and `b` (42) of the tracer model class, after the history `exHist`
+through `a`; `exC1` / `exC2` are two successive copies of `a`. -/
+
+theorem exW2 : WorldOK2 [exCls] exH := worldOK2_of_check (by decide)
+theorem exWF : WF exHeap := wf_of_check (by decide)
+theorem exOK : ClassOK exHeap exCls := classOK_of_check (by decide)
+
+def exC1 : Heap × Nat := (copyRoot [exCls] exH exA.2).getD ([], 0)
+def exC2 : Heap × Nat := (copyRoot [exCls] exC1.1 exA.2).getD ([], 0)
+set_option maxRecDepth 8000 in
+theorem exC1_eq : copyRoot [exCls] exH exA.2 = some (exC1.1, exC1.2) := by decide
+set_option maxRecDepth 16000 in
+theorem exC2_eq : copyRoot [exCls] exC1.1 exA.2 = some (exC2.1, exC2.2) := by decide
+
+-- copy_fresh, copy_observationally_equal, copy_same_class, worldOK_after_copy: W, ha, hc
+example : Disjoint exC1.1 exA.2 exC1.2 ∧ ObsEq exC1.1 exA.2 exC1.2 ∧ WorldOK [exCls] exC1.1 :=
+  ⟨(copy_fresh exW2.toWorldOK (by decide) exC1_eq).1, copy_observationally_equal exW2 (by decide) exC1_eq,
+   worldOK_after_copy exW2.toWorldOK (by decide) exC1_eq⟩
+example : ∃ o o', exC1.1[exA.2]? = some o ∧ exC1.1[exC1.2]? = some o' ∧ o.kind = o'.kind :=
+  copy_same_class exW2 (by decide) exC1_eq
+-- copy_independent (history `exHist` through the copy), copy_resync_independent (a write to the original, then the
+-- copy re-reads `Y` from the original's array at location 8)
+example : ∀ n, view (run exC1.1 exC1.2 exHist) n (.ref exA.2) = view exC1.1 n (.ref exA.2) :=
+  (copy_independent exW2.toWorldOK (by decide) exC1_eq exHist).1
+example : Disjoint (runBothOps exC1.1 exA.2 exC1.2
+    [(true, .setCell "Y" 0 (.int 7)), (false, .assignFrom "Y" 8 true), (false, .append ["check"] "X")]) exA.2 exC1.2 :=
+  (copy_resync_independent exW2.toWorldOK (by decide) exC1_eq _).1
+-- successive_copies_disjoint: W, ha, hc1, hc2
+example : exC1.2 ≠ exC2.2 ∧ Disjoint exC2.1 exC1.2 exC2.2 ∧ Disjoint exC2.1 exA.2 exC1.2 ∧ Disjoint exC2.1 exA.2 exC2.2 :=
+  successive_copies_disjoint exW2.toWorldOK (by decide) exC1_eq exC2_eq
+-- copy_entries_separate: W, ho, hk, hcd, hnl, hc
+example : EntriesSeparate exC1.1 exC1.2 :=
+  copy_entries_separate (o := exH[exA.2]) (ci := 0) (cd := exCls) exW2 (by decide) (by decide) (by decide) (by decide) exC1_eq
+
+-- siblings: disjoint_frame / disjoint_frame_ops / interleaved_* need WF, both roots valid and `Disjoint`, which is what
+-- `siblings_disjoint` gives for `a` and `b` (its own hypotheses: `exWF`, `exOK`)
+theorem exSibDisj : Disjoint exB.1 exA.2 exB.2 :=
+  siblings_disjoint 0 exCls exHeap (.range 2) (.range 2) .none .none exWF exOK
+theorem exWFB : WF exB.1 := wf_of_check (by decide)
+example : ∀ n, view exH n (.ref exB.2) = view exB.1 n (.ref exB.2) :=
+  (disjoint_frame exWFB (by decide) (by decide) exSibDisj exHist).2.2.1
+example : ∀ n, view (runOps exB.1 exA.2 [.append ["check"] "X", .setCell "Y" 1 (.int 3)]) n (.ref exB.2) =
+    view exB.1 n (.ref exB.2) :=
+  (disjoint_frame_ops exWFB (by decide) (by decide) exSibDisj _).1
+example : Disjoint exSync exA.2 exB.2 :=
+  (interleaved_independent_ops exWFB (by decide) (by decide) exSibDisj _).1
+example : Disjoint (runBoth exB.1 exA.2 exB.2 (exHist.map fun s => (true, s))) exA.2 exB.2 :=
+  (interleaved_disjoint _ exB.1 exWFB (by decide) (by decide) exSibDisj).2.2
+example : view (applyStep (runBoth exB.1 exA.2 exB.2 (exHist.map fun s => (true, s))) exA.2
+      ⟨["check"], .push (.str "X")⟩) 3 (.ref exB.2) =
+    view (runBoth exB.1 exA.2 exB.2 (exHist.map fun s => (true, s))) 3 (.ref exB.2) :=
+  (interleaved_independent exWFB (by decide) (by decide) exSibDisj _ _ 3).1
+example : Disjoint exB.1 exB.2 exCls.attrs := instance_class_disjoint 0 exCls exA.1 (.range 2) .none
+  (wf_of_check (by decide)) (classOK_of_check (by decide))
+
+-- assignFrom_inplace_copies_values: hn, ho, hs (b's `_Y` is location 28, a's `_Y` is location 8)
+example : nav exB.1 exB.2 ["_" ++ "Y"] = some 28 ∧ exB.1[28]? = some (cellArray 2 (.int 0)) ∧
+    exB.1[8]? = some (cellArray 2 (.int 0)) := by decide
+example : (applyOp exB.1 exB.2 (.assignFrom "Y" 8 true))[28]? = some ⟨.array, immSlots (cellArray 2 (.int 0)).slots⟩ :=
+  assignFrom_inplace_copies_values (o := cellArray 2 (.int 0)) (by decide) (by decide) (by decide)
+
+-- ops_local at a real history: the new `_Q` array (location 47) is reachable from `a` after `exHist`, and is new
+example : Reach exB.1 exA.2 47 ∨ exB.1.length ≤ 47 :=
+  ops_local (ops := [.traceT 1 .own true (.str "start") 3, .addVariable "Q" 2 true]) exWFB (by decide) 47
+    (Reach.step (Reach.refl _) (o := exH[exA.2]) (k := "_Q") (by decide) (by decide))
+
+-- trace_t_local: wf, hr, hl and `¬ Reach` (the class-level TRACE_VARIABLES list, location 2, is reachable from the
+-- class object 3, hence not from the instance)
+theorem exNoReach2 : ¬ Reach exA2.1 exA2.2 2 := fun r =>
+  instance_class_disjoint 0 exCls2 exHeap2 (.range 2) .none (wf_of_check (by decide)) (classOK_of_check (by decide)) 2 r
+    (Reach.step (Reach.refl 3) (o := exHeap2[3]) (k := "TRACE_VARIABLES") (by decide) (by decide))
+example : ¬ Reach exT2 exA2.2 2 :=
+  trace_t_local (wf_of_check (by decide)) (by decide) (by decide) 1 true (.str "start") 1 exNoReach2
+
+-- deepcopy_uncopyable: ho, hk, hm (the generator attribute of `exUnc` is location 43)
+example : deepcopy [exCls] 5 exUnc [] (.ref 43) = none :=
+  deepcopy_uncopyable (o := ⟨.uncopyable, []⟩) 5 (by decide) rfl rfl
+-- failed_copy_is_identity: hf
+set_option maxRecDepth 8000 in
+example : (copyCmd [exCls] exUnc exA.2).1 = exUnc := failed_copy_is_identity (by decide)
+-- fresh_check_is_not_endogenous: hc
+example : ∃ L, (construct exCls exHeap (.imm (.range 2)) (.imm .none)).2.lookup "endogenous" = some (.ref L) ∧
+    (construct exCls exHeap (.imm (.range 2)) (.imm .none)).2.lookup "check" = some (.ref (L + 1)) :=
+  fresh_check_is_not_endogenous 0 exCls exHeap _ _ (by decide)
+-- sibling_history_invisible / class_invisible_to_instance_history: wf, ok
+example : ∀ n, view (runOps exB.1 exA.2 [.append ["check"] "X"]) n (.ref exB.2) = view exB.1 n (.ref exB.2) :=
+  sibling_history_invisible 0 exCls exHeap (.range 2) (.range 2) .none .none exWF exOK _
+example : ∀ n, view (runOps exA.1 exA.2 [.append ["check"] "X"]) n (.ref exCls.attrs) =
+    view exA.1 n (.ref exCls.attrs) :=
+  class_invisible_to_instance_history 0 exCls exHeap (.range 2) .none exWF exOK _
+
 end Fsic.C11
